@@ -314,7 +314,7 @@ func analyseConnUnit(v *vocab, u *connUnit, entryLive bool, requires map[*types.
 	}
 	isCtor := func(call *ast.CallExpr) bool {
 		cf := flow.CalleeFunc(info, call)
-		return cf != nil && v.byObj[cf] != nil && (cf.Name() == "newStreamConn" || cf.Name() == "newUDPConn")
+		return cf != nil && v.byObj[cf] != nil && (nameOf(cf) == "newStreamConn" || nameOf(cf) == "newUDPConn")
 	}
 	calleePkg := func(call *ast.CallExpr) string {
 		switch o := flow.Callee(info, call).(type) {
